@@ -245,6 +245,7 @@ impl Ctx<'_> {
         let op2 = *op;
         let mode = if self.raw { "raw" } else { "pr" };
         let this = std::panic::AssertUnwindSafe(&mut *self);
+        crate::watch::begin(d, format!("{} history {:?} then {:?}", mode, hist, op));
         let res = catch(move || {
             let this = this;
             let (mut i, rc) = this.0.prepare(hist);
@@ -269,6 +270,7 @@ impl Ctx<'_> {
             this.0.inst = Some(i);
             Some((line, out.ret, live))
         });
+        crate::watch::end();
         match res {
             Ok(None) => None,
             Ok(Some((line, ret, live))) => {
@@ -384,12 +386,13 @@ pub fn run() {
     // written completely, is better off with them)
     crate::sys::disable_thp();
     let from = heap_start + offset * CB;
-    let trace = Trace::new();
+    let trace: &'static Trace = &crate::watch::TRACE;
+    crate::watch::spawn(out.clone());
     let mut rng = Rng::new(seed_from_env() ^ 0xC29);
     let mut total = 0u64;
     for a in api.split(',') {
         let raw = a == "raw";
-        let mut cx = Ctx { trace: &trace, from, n, spaces, maxreq, maxd, raw, layout: layout.clone(), rows: 0,
+        let mut cx = Ctx { trace, from, n, spaces, maxreq, maxd, raw, layout: layout.clone(), rows: 0,
                            recycle, shard, inst: None, fallbacks: 0 };
         if mode == "tree" {
             cx.reset_row();
@@ -400,7 +403,7 @@ pub fn run() {
                 // one long history on one instance; a crash ends it
                 let len = rng.range(maxlen as u64 / 2, maxlen as u64) as usize;
                 // phases bias the mix so that the window fills up, fragments and drains
-                let tr = &trace;
+                let tr = trace;
                 let (from, n, spaces, raw) = (cx.from, cx.n, cx.spaces, cx.raw);
                 let mut r2 = rng.clone();
                 let maxreq = cx.maxreq;
@@ -427,7 +430,9 @@ pub fn run() {
                         } else {
                             Op::FreeAll { s, idx: None }
                         };
+                        crate::watch::begin(0, format!("{} random history, step {}: {:?}", mode_s, step, op));
                         let o = i.exec(&op);
+                        crate::watch::end();
                         let obj = Obj::new("Op").int("d", 0).str("mode", mode_s).str("k", o.k)
                             .int("s", o.s as i64 + 1).int("n", o.n).int("r", o.r).int("ret", o.ret);
                         tr.push(i.observe(obj).finish());
